@@ -287,7 +287,8 @@ where
     ensure!(local_values.len() == S::COLUMNS);
     ensure!(next_values.len() == S::COLUMNS);
     ensure!(if let Some(quotient_polys) = quotient_polys {
-        quotient_polys.len() == stark.num_quotient_polys(config)
+        // A STARK without constraints has no quotient polynomials: its proofs carry `None`, never an empty vector.
+        stark.num_quotient_polys(config) > 0 && quotient_polys.len() == stark.num_quotient_polys(config)
     } else {
         stark.num_quotient_polys(config) == 0
     });
